@@ -55,6 +55,7 @@ inductive CfgErr where
   | noDatatype (param : Name)
   | needsCfg (param : Name)
   | unknownNames (keys : List Name)
+  | unknownProp (name key : Name)       -- "'<name>' has no property '<key>'"
   | mandatory (key : Name)
   | badDatatype (param : Name)
   | raised
@@ -145,16 +146,22 @@ structure ModPropsOut (Val : Type) where
   errs : List CfgErr
   raised : Bool
 
+/-- keys other than `value` in the dict given for a module property (repaired tree: collected, not ignored) -/
+def extraKeys {Val : Type} : Option (Entry Val) → List Name
+  | some (.acc items) => (items.map (·.1)).filter (fun k => k != "value")
+  | _ => []
+
 def modPropStep {Val : Type} (cfg : Cfg Val) (acc : ModPropsOut Val) (d : ModPropDesc Val) : ModPropsOut Val :=
   if acc.raised then acc else
+  let ex := (extraKeys (lookup d.name cfg)).map (CfgErr.unknownProp d.name)
   match applyModProp d (lookup d.name cfg) with
   | .absent => match d.classValue with
-    | some v => { acc with values := acc.values ++ [(d.name, v)] }
-    | none => acc
-  | .set v => { acc with values := acc.values ++ [(d.name, v)] }
+    | some v => { acc with values := acc.values ++ [(d.name, v)], errs := acc.errs ++ ex }
+    | none => { acc with errs := acc.errs ++ ex }
+  | .set v => { acc with values := acc.values ++ [(d.name, v)], errs := acc.errs ++ ex }
   | .bad => match d.classValue with
-    | some v => { acc with values := acc.values ++ [(d.name, v)], errs := acc.errs ++ [.badModProp d.name] }
-    | none => { acc with errs := acc.errs ++ [.badModProp d.name] }
+    | some v => { acc with values := acc.values ++ [(d.name, v)], errs := acc.errs ++ ex ++ [.badModProp d.name] }
+    | none => { acc with errs := acc.errs ++ ex ++ [.badModProp d.name] }
   | .raised => { acc with raised := true }
 
 def applyModProps {Val : Type} (ds : List (ModPropDesc Val)) (cfg : Cfg Val) : ModPropsOut Val :=
